@@ -73,6 +73,8 @@ def spec(c, r):
         else:
             want = float(sum(cells)) / len(cells) if cells else float("nan")
         got = it["val"]
+        if c.get("dtype") == "float32" and want == want:
+            want = float(np.float32(want))               # the mean of a float32 window is a float32
         if not ((want != want and got != got) or want == got):
             return "window (%d..%d): %s=%s, expected %s" % (jj, e, c["op"], got, want)
     return None
@@ -92,7 +94,8 @@ def gen(ctx, rng):
                     k += 1
                     pix = [None if rng.random() < 0.25 else int(rng.integers(-50, 50)) for _ in range(L)]
                     cases.append(dict(axis=axis, n=n, begin=b, end=e, method=None, op=["sum", "mean", "full"][k % 3],
-                                      dim=["time", "band"][(k // 3) % 2], pix=pix, first=bool((k // 6) % 2), exhaustive=True))
+                                      dim=["time", "band"][(k // 3) % 2], pix=pix, first=bool((k // 6) % 2), exhaustive=True,
+                                      dtype=["float64", "float32"][(k // 12) % 2]))
     # labels off the axis, with and without a lookup method
     for _ in range(600 if ctx.thorough else 150):
         L = int(rng.integers(1, 13))
@@ -111,7 +114,8 @@ def gen(ctx, rng):
         if rng.random() < 0.1:
             pix = [None] * L
         cases.append(dict(axis=axis, n=n, begin=pick(), end=pick(), method=meth, op=str(rng.choice(["sum", "mean", "full"])),
-                          dim=str(rng.choice(["time", "band"])), pix=pix, first=bool(rng.random() < 0.5), exhaustive=False))
+                          dim=str(rng.choice(["time", "band"])), pix=pix, first=bool(rng.random() < 0.5), exhaustive=False,
+                          dtype=str(rng.choice(["float64", "float32", "float32"]))))
     return cases
 
 
@@ -121,6 +125,14 @@ def coq_case(c, r):
         if it["start"] is None or it["stop"] is None:
             return None
         sl = "[" + "; ".join(optlit(v, zlit) for v in (it.get("slice") or [])) + "]"
+        val = it["val"]
+        if c.get("dtype") == "float32" and c["op"] == "mean" and val == val and it["start"] in c["axis"] and it["stop"] in c["axis"]:
+            # a float32 cube yields the float32 rounding of the window mean; the model works in binary64, so hand it the binary64
+            # mean when (and only when) the observed value is exactly its float32 rounding
+            cells = [v for v in c["pix"][c["axis"].index(it["start"]):c["axis"].index(it["stop"]) + 1] if v is not None]
+            if cells and float(np.float32(sum(cells) / len(cells))) == val:
+                val = sum(cells) / len(cells)
+        it = dict(it, val=val)
         its.append("IT %s %s %s %s %s %s" % (zlit(it["start"]), zlit(it["stop"]), zlit(it["n"]),
                                              optlit(it.get("stamp"), zlit), flit(it["val"]), sl))
     pix = "[" + "; ".join(optlit(v, zlit) for v in c["pix"]) + "]"
